@@ -17,7 +17,14 @@
 // and the view is not C-contiguous, ...; see pybind11.h) and then calls the kernel.  The reference is computed from the
 // logical values; the result is read through ITS strides.
 //
-// Output is line oriented (REG/OTHER/CALLS/ELEMS/MISMATCH/MMLAYOUT/SHAPE/INPUTCHANGED/NOGIL/RAISED/LAYOUT/.../DONE, stdout
+// Beyond the small shapes: a LARGE sweep (several hundred to a few thousand points in either argument, up to 300 conformers --
+// beyond plausible block / unroll / threshold sizes; some of it through non-contiguous views) with the same element-wise
+// comparison, and a WRONG-NDIM sweep: arguments with 0, 1, 3 (cdist22*) resp. 0, 1, 2, 4 (cdist32*) dimensions and second
+// arguments with 0, 1, 3 dimensions.  pybind11 turns those away in unchecked<N>() / shape(i) (the stand-in does the same), so a
+// call that RETURNS is reported (NDIMACCEPTED); a kernel that no longer goes through those and reads the buffer by hand
+// either reads past the exact-size allocation (ASan) or returns.
+//
+// Output is line oriented (REG/OTHER/CALLS/ELEMS/MISMATCH/MMLAYOUT/SHAPE/INPUTCHANGED/NOGIL/RAISED/LAYOUT/LARGE*/NDIM*/.../DONE, stdout
 // line-buffered so that lines printed before a sanitizer abort survive) and parsed by vmon/props/C19.py.  Sanitizer reports
 // go to stderr and abort the process.
 #include <distance.cpp>
@@ -143,6 +150,8 @@ void check_one(const reg<T> &e, const Family &fam, ssize_t X, ssize_t N, ssize_t
 }
 
 long n_alias_calls = 0, n_alias_same_start = 0, n_alias_identical = 0, n_alias_overlap = 0;
+long n_large_calls = 0, n_large_second = 0, n_large_first = 0, n_large_conformers = 0, n_large_noncontig = 0, n_large_elems = 0;
+long n_ndim_calls = 0, n_ndim_raised = 0, n_ndim_accepted = 0;
 
 // both arguments are views of ONE caller array (coords[:k] against coords, ens.coords against ens.coords[x], the same
 // array twice, overlapping windows): what a kernel may conclude from equal data pointers must still be right
@@ -271,6 +280,80 @@ void layout_sweep(const table_t<T> &table, uint64_t seed, int rounds) {
     }
 }
 
+// large sweep: more than 256 points in the second argument, more than 256 rows (points resp. conformers) in the first, more
+// than 8 conformers; fixed shapes around powers of two plus seeded ones; C-contiguous and (every third call) views that the
+// call boundary has to copy
+template <typename T>
+void large_sweep(const table_t<T> &table, uint64_t seed, int rounds) {
+    static const ssize_t S22[][2] = {{5, 300}, {300, 5}, {257, 513}, {1030, 70}, {70, 1030}, {2, 4100}, {4100, 2}, {1, 257}, {256, 256}};    // N, M
+    static const ssize_t S32[][3] = {{1, 5, 300}, {9, 3, 300}, {2, 300, 5}, {33, 7, 40}, {17, 40, 260}, {3, 270, 290}, {300, 2, 3},
+                                     {2, 1030, 3}, {64, 1, 65}, {257, 1, 1}};                                                          // X, N, M
+    static const Layout LA[] = {L_C, L_C, L_FIRSTSTEP, L_C, L_FIRSTREV, L_C, L_COLWINDOW, L_C, L_LASTREV};
+    static const Layout LB[] = {L_C, L_C, L_F, L_C, L_LASTSTEP, L_C, L_FIRSTSTEP, L_C, L_FIRSTREV};
+    for (const auto &e : table) {
+        Family fam = family(e.name);
+        if (!fam.known) continue;
+        Rng rng{name_seed(seed, e.name, sizeof(T), 9191)};
+        for (int round = 0; round < rounds; ++round) {
+            std::vector<std::vector<ssize_t>> shapes;
+            if (fam.nd1 == 2) for (const auto &s : S22) shapes.push_back({1, s[0], s[1]});
+            else for (const auto &s : S32) shapes.push_back({s[0], s[1], s[2]});
+            // seeded: one long side, the other one short (keeps the element count down)
+            shapes.push_back({fam.nd1 == 2 ? 1 : 1 + rng.below(3), 257 + rng.below(2000), 1 + rng.below(40)});
+            shapes.push_back({fam.nd1 == 2 ? 1 : 1 + rng.below(3), 1 + rng.below(40), 257 + rng.below(2000)});
+            if (fam.nd1 == 3) shapes.push_back({9 + rng.below(120), 1 + rng.below(12), 1 + rng.below(60)});
+            size_t k = size_t(rng.below(9));
+            for (const auto &s : shapes) {
+                const long before = n_elems;
+                const Layout la = LA[k % 9], lb = LB[k % 9]; ++k;
+                check_one<T>(e, fam, s[0], s[1], s[2], rng, int(rng.below(5)), la, lb);
+                ++n_large_calls; n_large_elems += n_elems - before;
+                if (s[2] > 256) ++n_large_second;
+                if (s[1] > 256 || (fam.nd1 == 3 && s[0] > 256)) ++n_large_first;
+                if (fam.nd1 == 3 && s[0] > 8) ++n_large_conformers;
+                if (la != L_C || lb != L_C) ++n_large_noncontig;
+            }
+        }
+    }
+}
+
+// wrong-ndim sweep: see the head of the file.  Arrays of shape (2,)*(nd-1) + (3,) (nd = 0: a 0-d array), C-contiguous.
+template <typename T> arr<T> ndim_array(int nd, Rng &rng) {
+    std::vector<ssize_t> shape;
+    for (int k = 0; k + 1 < nd; ++k) shape.push_back(2);
+    if (nd > 0) shape.push_back(3);
+    ssize_t n = 1; for (auto d : shape) n *= d;
+    std::vector<ssize_t> st = arr<T>::c_strides(shape);
+    arr<T> a(shape, st, n, 0);
+    fill(a.mutable_base_data(), n, rng, 0);
+    return a;
+}
+
+template <typename T>
+void ndim_sweep(const table_t<T> &table, uint64_t seed) {
+    const char tc = sizeof(T) == 4 ? 'f' : 'd';
+    for (const auto &e : table) {
+        Family fam = family(e.name);
+        if (!fam.known) continue;
+        Rng rng{name_seed(seed, e.name, sizeof(T), 5151)};
+        // higher dimension counts first: a kernel reading the buffers by hand stays inside them there and RETURNS (reported
+        // below); with fewer dimensions it reads past the allocation and the sanitizer ends the process
+        for (int na = 4; na >= 0; --na) for (int nb = 3; nb >= 0; --nb) {
+            if (na == fam.nd1 && nb == 2) continue;
+            arr<T> a = ndim_array<T>(na, rng), b = ndim_array<T>(nb, rng);
+            ++n_ndim_calls;
+            try {
+                arr<T> r = e.call(a, b, nullptr);
+                if (++n_ndim_accepted <= 40) {
+                    std::printf("NDIMACCEPTED %s %c a.ndim=%d b.ndim=%d out=", e.name.c_str(), tc, na, nb);
+                    for (auto d : r.shape_vec()) std::printf("%zd,", d);
+                    std::printf("\n");
+                }
+            } catch (const std::exception &) { ++n_ndim_raised; }
+        }
+    }
+}
+
 // alias sweep: see check_alias
 template <typename T>
 void alias_sweep(const table_t<T> &table, uint64_t seed, int rounds) {
@@ -363,12 +446,20 @@ int main(int argc, char **argv) {
         layout_sweep<double>(m.f64, seed, rounds);
         sweep<float>(m.f32, seed, rounds);
         sweep<double>(m.f64, seed, rounds);
+        large_sweep<float>(m.f32, seed, rounds);
+        large_sweep<double>(m.f64, seed, rounds);
         std::printf("CALLS %ld\nELEMS %ld\nNMISMATCH %ld\nNSHAPE %ld\nNINPUTCHANGED %ld\nNRAISED %ld\n", n_calls, n_elems, n_mismatch, n_shape, n_inputchanged, n_raised);
         for (int l = 0; l < L_COUNT; ++l) std::printf("LAYOUT %s %ld\n", LNAME[l], n_layout[l]);
         std::printf("NONCONTIGCALLS %ld\nNONCONTIGELEMS %ld\nCASTCOPY %ld\nCASTPASS %ld\nPASSNONCONTIG %ld\n",
                     n_noncontig_calls, n_noncontig_elems, n_cast_copy, n_cast_pass, n_pass_noncontig);
         std::printf("ALIASCALLS %ld\nALIASSAMESTART %ld\nALIASIDENTICAL %ld\nALIASOVERLAP %ld\n", n_alias_calls, n_alias_same_start, n_alias_identical, n_alias_overlap);
         for (auto &kv : mm_by_layout) std::printf("MMCOUNT %s %ld\n", kv.first.c_str(), kv.second);
+        std::printf("LARGECALLS %ld\nLARGEELEMS %ld\nLARGESECOND %ld\nLARGEFIRST %ld\nLARGECONFORMERS %ld\nLARGENONCONTIG %ld\n",
+                    n_large_calls, n_large_elems, n_large_second, n_large_first, n_large_conformers, n_large_noncontig);
+        // last (the totals above are out already): arguments with a wrong number of dimensions
+        ndim_sweep<float>(m.f32, seed);
+        ndim_sweep<double>(m.f64, seed);
+        std::printf("NDIMCALLS %ld\nNDIMRAISED %ld\nNDIMACCEPTED_TOTAL %ld\n", n_ndim_calls, n_ndim_raised, n_ndim_accepted);
     } else if (mode == "threads") {
         int n = argc > 2 ? std::atoi(argv[2]) : 8; uint64_t seed = argc > 3 ? std::strtoull(argv[3], nullptr, 10) : 0;
         int reps = argc > 4 ? std::atoi(argv[4]) : 3;
